@@ -16,7 +16,8 @@ RULE = ("page: collection tables of 0-200 rows with timestamp ties of every mult
         "than 3x the page size), page sizes 1..n+1 / 0 (server maximum) / server-side caps, schedules of "
         "modify/add/delete applied between page requests (fresh-now, merely per-collection-monotone, and hostile "
         "additions with old timestamps), injected request failures (500, transport error, status 200 with the body cut at "
-        "byte 0 / 1 / half / last, garbage JSON) and callback failures, pagecut: every truncation point of one page/count "
+        "byte 0 / 1 / half / last, garbage JSON; also fault sequences of 2-4 failures at consecutive or nearly "
+        "consecutive requests against page sizes 1-8) and callback failures, pagecut: every truncation point of one page/count "
         "response, plus small-scope interleavings "
         "(3-6 rows, page size 1-3, ordered pairs/triples of add/modify/delete in one or two successive gaps); idx/gidx: every cut point of "
         "generated well-formed index responses plus malformed streams (blank lines, CR, bad fields, mtime syntax "
@@ -189,12 +190,46 @@ def _gen_page(rng, big):
     sch = ";".join(f"{k}:{','.join(v)}" for k, v in sorted(sched.items())) or "-"
     fail = "-"
     if rng.random() < 0.1:
-        fail = str(rng.randint(0, max(1, min(est, 12)))) + rng.choice(["", "", "n", "j", "e", "e", "b", "h", "l"])
+        k = rng.randint(0, max(1, min(est, 12)))
+        fail = str(k) + rng.choice(_FAIL_KINDS)
+        if rng.random() < 0.3:
+            # a fault sequence: further failures at the following requests (a retry, if there were one,
+            # would meet them)
+            for _ in range(rng.choice([1, 1, 2, 3])):
+                k += rng.choice([1, 1, 1, 2])
+                fail += "+" + str(k) + rng.choice(_FAIL_KINDS)
     cbf = "-"
     if rng.random() < 0.06:
         cbf = str(rng.randint(0, n + 1))
     pop = ",".join(f"{u}:{t}" for u, t in zip(uuids, times)) or "-"
     return f"page {ps} {cap} {pop} {sch} {fail} {cbf}"
+
+
+_FAIL_KINDS = ["", "", "n", "j", "e", "e", "b", "h", "l"]
+
+
+def _gen_faultseq(rng):
+    """Fault sequences against small pages: a table of 4-24 rows (ties included), page size 1-8, and 1-4
+    failures (any kind) at consecutive or nearly consecutive requests, starting at any request of the
+    scan - so that anything done after a first failure (a retry, a smaller page, a resumed cursor)
+    meets the following failures as well."""
+    n = rng.randint(4, 24)
+    uuids = rng.sample(range(1, 500), n)
+    d = rng.choice([1, 2, 3, n])
+    times = [rng.randint(1, d) for _ in range(n)]
+    ps = rng.choice([1, 1, 2, 2, 3, 4, 5, 6, 7, 8])
+    npages = n // ps + 2 * d + 3
+    k = rng.randint(0, min(npages, 14))
+    fails = []
+    for _ in range(rng.choice([1, 2, 2, 3, 3, 4])):
+        fails.append(str(k) + rng.choice(_FAIL_KINDS))
+        k += rng.choice([1, 1, 1, 1, 2, 3])
+    sch = "-"
+    if rng.random() < 0.25:
+        u = rng.choice(uuids)
+        sch = f"{rng.randint(1, npages)}:m{u}:{d + 1}"
+    pop = ",".join(f"{u}:{t}" for u, t in zip(uuids, times))
+    return f"page {ps} 0 {pop} {sch} {'+'.join(fails)} -"
 
 
 def _gen_pairs(rng):
@@ -369,6 +404,8 @@ def generate(rng, tier):
         cases.append(_gen_page(rng, big))
     for _ in range(200 if not big else 3000):
         cases.append(_gen_pairs(rng))
+    for _ in range(80 if not big else 1200):
+        cases.append(_gen_faultseq(rng))
     # every truncation point of one page/count response of a scan over a static table
     for _ in range(16 if not big else 150):
         n = rng.randint(1, 7)
@@ -734,7 +771,7 @@ def describe(cases, impl):
                  "page_failure": 0, "result_error": 0, "result_nil": 0}}
     pg = {"rows_0": 0, "rows_1_12": 0, "rows_13_60": 0, "rows_61_200": 0, "tie_run_gt_3x_page": 0,
           "tie_run_gt_page": 0, "with_schedule": 0, "with_request_failure": 0, "with_callback_failure": 0,
-          "null_modified_at": 0, "server_max_page": 0, "server_cap": 0,
+          "with_fault_sequence": 0, "null_modified_at": 0, "server_max_page": 0, "server_cap": 0,
           "outcomes": {}, "mode_requests": {"first": 0, "ge": 0, "eq": 0, "gt": 0}}
     for c, r in zip(cases, impl):
         f = c.split(" ")
@@ -751,6 +788,7 @@ def describe(cases, impl):
                 pg["tie_run_gt_page"] += 1
             pg["with_schedule"] += f[4] != "-"
             pg["with_request_failure"] += f[5] != "-"
+            pg["with_fault_sequence"] += "+" in f[5]
             pg["with_callback_failure"] += f[6] != "-"
             pg["null_modified_at"] += 0 in ts
             pg["server_max_page"] += ps <= 0
